@@ -27,10 +27,12 @@ import (
 	"fmt"
 	"os"
 	"path/filepath"
+	"runtime"
 	"sort"
 	"strconv"
 	"strings"
 	"sync"
+	"sync/atomic"
 	"time"
 
 	"github.com/influxdata/influxdb/v2/models"
@@ -356,6 +358,11 @@ func (r *runner) Op(t []string) string {
 			return "bad-op"
 		}
 		return ExtractStepOrder(repoDir())
+	case "stress":
+		if len(t) != 5 {
+			return "bad-op"
+		}
+		return stress(uint64(h.Atoi(t[1])), int(h.Atoi(t[2])), int(h.Atoi(t[3])), int(h.Atoi(t[4])))
 	}
 	if r.err != nil {
 		return "harness-error"
@@ -559,6 +566,141 @@ func (r *runner) Op(t []string) string {
 	return "bad-op"
 }
 
+// stress runs a free-running concurrent workload on a fresh real shard with the
+// engine's own background compactions enabled: `writers` goroutines (writer i owns
+// series i and keeps overwriting 6 timestamps with increasing values), `readers`
+// goroutines reading random series with the real cursor, one snapshotter calling
+// Engine.WriteSnapshot in a loop.  No deletes (C03's window).  Every write and read
+// is recorded with logical start/end stamps from one atomic counter; the answer is
+// the history, judged by Spec.C39.stressOK.
+func stress(seed uint64, writers, readers, rounds int) string {
+	if writers < 1 || writers > nKeys || readers < 0 || readers > 8 || rounds < 1 || rounds > 400 {
+		return "bad-op"
+	}
+	st, err := openStore(true)
+	if err != nil {
+		return "harness-error"
+	}
+	defer st.close()
+	var clock atomic.Int64
+	var mu sync.Mutex
+	var events []string
+	var failed atomic.Bool
+	record := func(e string) { mu.Lock(); events = append(events, e); mu.Unlock() }
+	ctx := context.Background()
+	var wg, wwg sync.WaitGroup
+	stop := make(chan struct{})
+	for w := 0; w < writers; w++ {
+		wg.Add(1)
+		wwg.Add(1)
+		go func(k int) {
+			defer wg.Done()
+			defer wwg.Done()
+			for j := 0; j < rounds; j++ {
+				t, v := int64(j%6), int64(j)
+				p, err := models.NewPoint("m", seriesTags(k), models.Fields{"v": v}, time.Unix(0, t))
+				if err != nil {
+					failed.Store(true)
+					return
+				}
+				s := clock.Add(1)
+				err = st.st.WriteToShard(ctx, 1, []models.Point{p})
+				e := clock.Add(1)
+				if err != nil {
+					failed.Store(true)
+					return
+				}
+				record(fmt.Sprintf("w,%d,%d,%d,%d,%d", k, t, v, s, e))
+				if j%7 == 0 {
+					runtime.Gosched()
+				}
+			}
+		}(w)
+	}
+	for r := 0; r < readers; r++ {
+		wg.Add(1)
+		go func(id int) {
+			defer wg.Done()
+			rnd := h.NewRand(seed*31 + uint64(id))
+			for {
+				select {
+				case <-stop:
+					return
+				default:
+				}
+				k := rnd.Intn(writers)
+				s := clock.Add(1)
+				ans := st.read(k)
+				e := clock.Add(1)
+				if !strings.HasPrefix(ans, "pts ") {
+					failed.Store(true)
+					return
+				}
+				record(fmt.Sprintf("r,%d,%d,%d,%s", k, s, e, strings.ReplaceAll(strings.TrimPrefix(ans, "pts "), ",", ";")))
+				time.Sleep(time.Duration(rnd.Intn(300)) * time.Microsecond)
+			}
+		}(r)
+	}
+	wg.Add(1)
+	go func() { // snapshotter
+		defer wg.Done()
+		eng := st.engine()
+		for {
+			select {
+			case <-stop:
+				return
+			default:
+			}
+			eng.WriteSnapshot()
+			time.Sleep(2 * time.Millisecond)
+		}
+	}()
+	done := make(chan struct{})
+	go func() { wwg.Wait(); close(done) }()
+	select {
+	case <-done:
+	case <-time.After(60 * time.Second):
+		failed.Store(true)
+	}
+	close(stop)
+	fin := make(chan struct{})
+	go func() { wg.Wait(); close(fin) }()
+	select {
+	case <-fin:
+	case <-time.After(20 * time.Second):
+		return "timeout"
+	}
+	if failed.Load() {
+		return "err"
+	}
+	// a final read of every series, after everything completed
+	for k := 0; k < writers; k++ {
+		s := clock.Add(1)
+		ans := st.read(k)
+		e := clock.Add(1)
+		record(fmt.Sprintf("r,%d,%d,%d,%s", k, s, e, strings.ReplaceAll(strings.TrimPrefix(ans, "pts "), ",", ";")))
+	}
+	// keep the history small: all writes, at most 120 reads (evenly thinned)
+	var ws, rs []string
+	for _, e := range events {
+		if e[0] == 'w' {
+			ws = append(ws, e)
+		} else {
+			rs = append(rs, e)
+		}
+	}
+	if len(rs) > 120 {
+		step := len(rs) / 120
+		var thin []string
+		for i := 0; i < len(rs); i += step {
+			thin = append(thin, rs[i])
+		}
+		thin = append(thin, rs[len(rs)-writers:]...)
+		rs = thin
+	}
+	return "hist " + strings.Join(append(ws, rs...), " ")
+}
+
 // goAcyclic: Go's own answer (Kahn) for the T3 comparison with the verified Lean check
 func goAcyclic(edges []string) bool {
 	indeg := map[string]int{}
@@ -756,6 +898,14 @@ func gen(r *h.Rand, tier string, emit func([]string)) {
 	}
 	for i := 0; i < n; i++ {
 		emit(genSchedule(r))
+	}
+	// free-running concurrent histories (supporting evidence; thorough tier only: their schedules cannot be replayed)
+	ns := 0
+	if tier == "thorough" {
+		ns = 40
+	}
+	for i := 0; i < ns; i++ {
+		emit([]string{fmt.Sprintf("stress %d %d %d %d", r.Intn(1000000), 1+r.Intn(3), 1+r.Intn(3), 40+r.Intn(80))})
 	}
 	// the scenarios of the theorems, literally
 	emit([]string{"w 0 1 7", "read-begin 0 0", "snap-begin", "snap-replace", "snap-clear", "read-end 0", "read 0"})
